@@ -130,12 +130,13 @@ func (p *PreBinder) PreBindRollBack(_ context.Context, _ *cache.BindContext) { p
 type StatusUpdater struct {
 	util.FakeStatusUpdater
 	FailPod    bool
+	FailIDs    map[int64]bool // per pod
 	PodUpdates int
 }
 
 func (u *StatusUpdater) UpdatePodStatus(pod *v1.Pod) (*v1.Pod, error) {
 	u.PodUpdates++
-	if u.FailPod {
+	if u.FailPod || u.FailIDs[sched.ParseID(pod.Name)] {
 		return nil, fmt.Errorf("scripted status update failure")
 	}
 	return pod, nil
@@ -589,6 +590,35 @@ func (c *Ctl) Bind(j, t, n int64, fault int64) int64 {
 	}
 	c.Status.FailPod = false
 	return errCode(err)
+}
+
+// BindCtx is one context of a batch: job, task, node, API outcome (as for Bind).
+type BindCtx struct{ J, T, N, F int64 }
+
+// BindBatch: AddBindTask for every context, then the bind flow on the whole batch at once
+// (BATCH_BIND_NUM > 1): the pre-binders walk the batch, Bind sends what passed them.
+func (c *Ctl) BindBatch(l []BindCtx) []int64 {
+	codes := []int64{}
+	c.Status.FailIDs = map[int64]bool{}
+	queued := 0
+	for _, x := range l {
+		ti := c.cycleTask(x.J, x.T)
+		ti.NodeName = sched.NodeName(x.N)
+		err := c.SC.AddBindTask(&cache.BindContext{TaskInfo: ti})
+		if err == nil {
+			// the outcome of the API side is scripted per accepted context (a task can be accepted once only)
+			c.Binder.Fail[x.T] = x.F == 0 || x.F == 4
+			c.PreBinder.Fail[x.T] = x.F == 2 || x.F == 3
+			c.Status.FailIDs[x.T] = x.F == 3 || x.F == 4
+			queued++
+		}
+		codes = append(codes, errCode(err))
+	}
+	if got := c.SC.VerifProcessBindFlowBatch(); got != queued {
+		panic(fmt.Sprintf("bind flow: %d contexts queued, %d processed", queued, got))
+	}
+	c.Status.FailIDs = nil
+	return codes
 }
 
 func (c *Ctl) Evict(j, t int64, ok bool) int64 {
